@@ -417,6 +417,15 @@ int main()
 				}
 				out += ";";
 			}
+			// what the real HashSet::Find returns for every key 1..n (bucket index . slot, or - when absent)
+			out += " F:";
+			for (ull k = 1; k < g_table.size(); ++k)
+			{
+				auto pos = set.Find(k);
+				if (!pos) { out += "-,"; continue; }
+				size_t bi = pos.mIndexCode; auto& fb = bks[bi];
+				out += std::to_string(bi) + "." + std::to_string(size_t(std::addressof(*pos) - &fb.mItems)) + ",";
+			}
 			puts(out.c_str());
 		}
 		else if (cmd == "tone")
